@@ -15,13 +15,18 @@ TOL = 2000  # microseconds: the property's edge tolerance ("about 2 ms")
 U_MAX = ST.T_MAX_MS * 1000
 
 
-def h_window(x, bk, n, has_start, has_end, clips=False):
+def h_window(x, bk, n, has_start, has_end, clips=False, via_api=False):
     A = ST.sym_rows(x, "a", n)
     B = ST.sym_rows(x, "b", 1)
     ST.distinct(x, [r.id for r in A + B])
     be = ST.backend(bk)
-    ds = be.make(x, {"A": A, "B": B})
+    ds = be.make(x, {"A": A if not via_api else [], "B": B})
     try:
+        if via_api:
+            # the stored events are written through the API (their encoding is part of what is checked)
+            for i, r in enumerate(A):
+                ret = ds["A"].insert(ST.event_of_row(x, r))
+                A[i] = Row(C.zv(ret.id), r.start, r.dur, r.tag)
         ws = x.zint("ws", 0, U_MAX) if has_start else None
         we = x.zint("we", 0, U_MAX) if has_end else None
         if has_start and has_end:
@@ -117,6 +122,9 @@ def harnesses(tier):
                     continue
                 hs.append((Harness(PROP, "%s-n%d-%s%s" % (bk, n, "S" if hs_ else "-", "E" if he_ else "-"), h_window, dict(bk=bk, n=n, has_start=hs_, has_end=he_, clips=(bk == "peewee")),
                                    "%s backend: windowed get / limited get / eventcount over %d stored events (window start %s, end %s)" % (bk, n, "given" if hs_ else "absent", "given" if he_ else "absent"), split_depth=7), 3600))
+    for bk in ["memory", "sqlite", "peewee"]:
+        hs.append((Harness(PROP, "%s-n1-SE-written-through-api" % bk, h_window, dict(bk=bk, n=1, has_start=True, has_end=True, clips=(bk == "peewee"), via_api=True),
+                           "%s backend: one event inserted through the API (durations up to 24 h inclusive), then windowed get / eventcount" % bk, split_depth=7), 1800))
     return hs
 
 
